@@ -112,6 +112,12 @@ def gen_set(rng, prefix, dangling=False):
     for i in range(1, n):
         if rng.random() < 0.15:
             ids[i] = rng.choice(ids[:i] + ([] if prefix else ["NAME", "ERROR", "NUMBER"])) + ".K%d" % i
+    if rng.random() < 0.15:
+        # a syntax id spelled like a colour name in small letters (colour names are written in capitals; "red" is an id
+        # like any other, and others refer to it)
+        lookalike = rng.choice(["red", "Cyan", "blue", "Green", "magenta", "white"])
+        if lookalike not in ids:
+            ids[rng.randrange(min(3, n))] = lookalike
     late_missing = prefix + "MISSING.X"
     items = {}
     for i, sid in enumerate(ids):
